@@ -1,4 +1,4 @@
-    pub trait Storage<T>: Sized + Default {
+    pub trait Storage<T>: Sized + Default + 'static {
         /// Representation invariant.
         spec fn sinv(&self) -> bool;
         /// The sequence of stored values.
@@ -30,9 +30,18 @@
     }
 
     pub trait IndexContainer<T>: Storage<T> {
+        //@ifnot failstop
         fn index(&self, index: usize) -> (r: T)
             requires self.sinv(), index < self.sview().len(),
             ensures r == self.sview()[index as int];
+        //@endif
+        //@if failstop
+        // Fail-stop reading (D7): a postcondition describes normal return only, so `ensures index < len` means
+        // "returns only for in-bounds positions, and then the right element".
+        fn index(&self, index: usize) -> (r: T)
+            requires self.sinv(),
+            ensures index < self.sview().len(), r == self.sview()[index as int];
+        //@endif
 
         fn push(&mut self, item: T)
             requires old(self).sinv(), old(self).sview().len() < usize::MAX,
